@@ -263,6 +263,18 @@ def origins(fn, start, through_casts=True, through_calls=None, max_steps=4000, w
                         p = op_place(op)
                         work.append((p["l"], _proj_names(p) + proj))
                 elif k == "agg":
+                    # a downcast read off an enum value that was built here: `(x as Holds).0` of `Holds(v)` is v, and of
+                    # `Broken` nothing at all (that definition cannot be the one the read sees)
+                    if proj and proj[0].startswith("as ") and df.kind == "stmt" and rv.get("agg") == "adt" and "variant" in rv \
+                            and len(proj) > 1:
+                        want_ = {proj[0][3:]}
+                        if proj[0] == "as Continue":        # read behind `?` (Try::branch maps Some / Ok to Continue)
+                            want_ |= {"Some", "Ok"}
+                        elif proj[0] == "as Break":
+                            want_ |= {"None", "Err"}
+                        if rv["variant"] not in want_:
+                            continue
+                        proj = proj[1:]
                     # see through tuple / struct construction when a field of the aggregate is what is read
                     if proj and df.kind == "stmt" and rv.get("agg") in ("tuple", "adt"):
                         idx = None
@@ -417,7 +429,7 @@ def closure_captures(prog, cl):
 def enum_eq(fn, cond):
     """for a Cond that is `<E as PartialEq>::eq(a, b)` where one side is a constant enum variant:
     (variant name, origins of the other side); else None"""
-    if cond.kind != "call" or not (cond.call.name.endswith("PartialEq>::eq") or cond.call.name.endswith("PartialEq>::ne")):
+    if cond.kind != "call" or not cond.call.name.endswith(("PartialEq>::eq", "PartialEq>::ne", "PartialEq::eq", "PartialEq::ne")):
         return None
     var = None
     other = []
